@@ -240,6 +240,10 @@ class CallState:
         self.decisions = script.get("decisions") or []
         self.overshoot = script.get("overshoot") or [0]
         self.abort_at = script.get("abort_at")  # poll index of first True, or None
+        # state-based abort: the flag rises when a given trace event happens (independent of poll counts)
+        self.abort_when = script.get("abort_when")  # e.g. {"ev": "OP_END", "n": 2} -> at the 2nd OP_END of this call
+        self.abort_flag = False
+        self._when_seen = 0
         self.faults = script.get("faults") or []
         self.draws = script.get("draws") or []
         self.n = {}  # site -> invocation count
@@ -277,6 +281,10 @@ class Env:
              "call": cs.cid if cs is not None else None, "ev": _name}
         d.update(kw)
         self.trace.append(d)
+        if cs is not None and cs.abort_when is not None and not cs.abort_flag and _name == cs.abort_when["ev"]:
+            cs._when_seen += 1
+            if cs._when_seen >= cs.abort_when.get("n", 1):
+                cs.abort_flag = True
         return d
 
     def cs(self) -> CallState | None:
@@ -501,7 +509,10 @@ class Env:
         ra = None
         if classification is not None:
             ra = classification.retry_after_s
-            same = (classification is cs.last_cls_obj) if cs.last_cls_obj is not None else None
+            lc = cs.last_cls_obj
+            # the statement demands the classifier's classification (incl. retry_after_s), not object identity
+            same = (classification.klass is lc.klass and classification.retry_after_s == lc.retry_after_s
+                    and dict(classification.details) == dict(lc.details)) if lc is not None else None
         self.ev("STRATEGY", which=which, style=style, attempt=attempt,
                 cls=getattr(klass, "name", repr(klass)), prev=fnum(prev), remaining=fnum(remaining),
                 cause=cause, ra=fnum(ra), same_cls_obj=same, raw=fnum(raw), j=j)
@@ -610,7 +621,7 @@ class Env:
     def abort_if(self) -> bool:
         cs = self.cs()
         i = cs.count("poll")
-        ans = cs.abort_at is not None and i >= cs.abort_at
+        ans = cs.abort_flag or (cs.abort_at is not None and i >= cs.abort_at)
         self.ev("POLL", i=i, ans=ans)
         if ans:
             self.fired("abort_flag")
